@@ -55,6 +55,13 @@ def group_checks(case, obs, out):
                 if names != want:
                     out.fail("advertises_all", "join_group_protocol_list", {"member": tag, "sent": names, "configured": want,
                                                                            "arrival": a.seq})
+                # ... and the timeouts the coordinator is to apply to this member are the configured ones
+                cfg = case["cfg"]
+                sent = (a.body.get("session_timeout"), a.body.get("rebalance_timeout"))
+                conf = (cfg["session_timeout_ms"], cfg["rebalance_timeout_ms"] if "rebalance_timeout" in a.body else None)
+                if sent != conf:
+                    out.fail("advertises_all", "join_group_timeouts", {"member": tag, "sent": sent, "configured": conf,
+                                                                      "version": a.ver, "arrival": a.seq})
         # a successful JoinGroup reply is followed by SyncGroup for that generation / member id
         seq = [a for a in arrs if a.api in GROUP_APIS]
         sub_changes = [e for e in obs.events if e["kind"] == "subscribe" and e["member"] == tag]
